@@ -21,11 +21,12 @@ import enum
 import operator
 import os
 
+import c10lists
 import common
 from common import Ctx, Outcome
 from props import c11 as base
 
-DRIVERS = ["Query"]
+DRIVERS = ["Query", "QueryList"]
 TABLES = False
 LEVEL = "proof"
 RULE = ("cases are (model, state, query) triples enumerated from the live model: every registered class / full type "
@@ -1166,13 +1167,16 @@ class ModelCtx:
         return self._ctx.scratch
 
 
-def run_model_state(ctx: Ctx, out: Outcome, model, label: str, state: str, fcases: list, reqs: list) -> None:
+def run_model_state(ctx: Ctx, out: Outcome, model, label: str, state: str, fcases: list, reqs: list,
+                    lreqs: list | None = None) -> None:
     keep: list = []  # keeps lxml proxies alive so that id() stays meaningful
     rep = {"model": label, "state": state}
     guarded(out, "search", dict(rep, kind="guard"), check_search, ctx, out, model, label, state, keep)
     guarded(out, "references", dict(rep, kind="guard"), check_references, ctx, out, model, label, state, keep)
     guarded(out, "children", dict(rep, kind="guard"), check_children, ctx, out, model, label, state)
     guarded(out, "filters", dict(rep, kind="guard"), check_filters, ctx, out, model, label, state, fcases)
+    if lreqs is not None:
+        guarded(out, "listops", dict(rep, kind="guard"), c10lists.check_lists, ctx, out, model, label, state, lreqs)
     if os.environ.get("VERIF_NO_MODEL") != "1":
         rq, impl = search_requests(ctx, model, keep)
         reqs.append(("search", label, state, rq[0], impl))
@@ -1185,6 +1189,7 @@ def run(ctx: Ctx) -> Outcome:
     out = Outcome(rule=RULE)
     fcases: list = []
     reqs: list = []
+    lreqs: list = []
     sel = base.MODELS
     only = os.environ.get("C10_MODELS")
     if only:
@@ -1195,11 +1200,11 @@ def run(ctx: Ctx) -> Outcome:
             continue
         model = base.open_model(ctx, label, copy="c10")
         mctx = ModelCtx(ctx, label)
-        run_model_state(mctx, out, model, label, "loaded", fcases, reqs)
+        run_model_state(mctx, out, model, label, "loaded", fcases, reqs, lreqs)
         n = random_edits(mctx, out, model)
         per_model[label] = {"edits": n}
         if n:
-            run_model_state(mctx, out, model, label, "edited", fcases, reqs)
+            run_model_state(mctx, out, model, label, "edited", fcases, reqs, lreqs)
         del model
     # fragmented variants (Capella-style, written by the independent fragmenter): type search with `below`
     # across fragment boundaries, references between fragments
@@ -1214,7 +1219,7 @@ def run(ctx: Ctx) -> Outcome:
             continue
         per_model[label + "#frag"] = {"cuts": cuts}
         out.hit("state:fragmented")
-        run_model_state(mctx, out, fm, label, "fragmented", fcases, reqs)
+        run_model_state(mctx, out, fm, label, "fragmented", fcases, reqs, lreqs)
         del fm
     # correspondence
     if os.environ.get("VERIF_NO_MODEL") != "1":
@@ -1260,6 +1265,21 @@ def run(ctx: Ctx) -> Outcome:
                     if sorted(map(list, bf)) != sorted(map(list, mv)):
                         out.disagree("findrefs.brute", {"model": label, "state": state, "y": u}, sorted(map(list, bf))[:10], sorted(map(list, mv))[:10])
                 out.traces_validated += 1
+        # ElementList operations: every operation of every exported list, answer by answer
+        lans = common.model([r["req"] for r in lreqs], driver="QueryList")
+        nops = 0
+        for r, a in zip(lreqs, lans):
+            if "ok" not in a:
+                out.disagree("listops", r["rep"], "n/a", a)
+                continue
+            for op, iv, mv in zip(r["req"]["ops"], r["impl"], a["ok"]):
+                nops += 1
+                out.hit("corr.listops:" + op["k"])
+                if iv != mv:
+                    out.disagree("listops." + op["k"], dict(r["rep"], op=op), iv, mv)
+            out.traces_validated += 1
+        out.extra["list_ops_to_model"] = nops
+        out.extra["lists_exported"] = len(lreqs)
     for f in out.findings:  # an edited state is reproduced from (seed, tier, model)
         f.replay.setdefault("seed", ctx.seed)
         f.replay.setdefault("tier", ctx.tier)
@@ -1276,7 +1296,7 @@ def replay(ctx: Ctx, case: dict):
     base.setup(ctx)
     label = case.get("model")
     kind = case.get("kind")
-    if case.get("state") in ("edited", "fragmented") or kind in ("guard", "filter-guard"):
+    if case.get("state") in ("edited", "fragmented") or kind in ("guard", "filter-guard", "listop"):
         # the edited state is a function of (seed, tier, model): re-run that model only
         ctx2 = Ctx(ctx.prop, case.get("tier", ctx.tier), int(case.get("seed", ctx.seed)))
         ctx2._scratch = ctx.scratch
@@ -1293,7 +1313,7 @@ def replay(ctx: Ctx, case: dict):
                 os.environ["VERIF_NO_MODEL"] = old_nm
         for f in o.findings:
             if f.replay.get("kind") == kind and f.replay.get("state") == case.get("state") and \
-                    all(f.replay.get(k) == case.get(k) for k in ("y", "attr") if k in case):
+                    all(f.replay.get(k) == case.get(k) for k in ("y", "attr", "origin") if k in case):
                 return f.what
         return None
     model = base.open_model(ctx, label, copy="c10r")
